@@ -2474,4 +2474,46 @@ M("m7-struct-drops-rest", "C08", "fire M7", "src/check.rs",
 M("m2-quiet-number-covers-containing-piece", "C08", "quiet", "src/check.rs",
   """            PatternEnum::NumSigned(n, _) if n == min && n == max => vec![tail.collect()],""",
   """            PatternEnum::NumSigned(n, _) if (min..=max).contains(&n) => vec![tail.collect()],""", "seed C17-h on the current tree: behaviour-preserving since the signed pieces are disjoint (8fd3338) - a number is a split point, so the only piece that contains it is its own singleton")
+# ---------------------------------------------------------------- twelfth seed batch as mutants
+M("a11-shift-limit-usize-like-u64", "C03", "fire A11", "src/compile.rs",
+  """                let max_filled_bits = match bits {
+                    8 => 3,
+                    16 => 4,
+                    32 => 5,
+                    64 => 6,
+                    bits => panic!("Unexpected number of bits to be shifted: {bits}"),
+                };""",
+  """                let max_filled_bits = match ty {
+                    Type::Unsigned(UnsignedNumType::U8) | Type::Signed(SignedNumType::I8) => 3,
+                    Type::Unsigned(UnsignedNumType::U16) | Type::Signed(SignedNumType::I16) => 4,
+                    Type::Unsigned(UnsignedNumType::U32) | Type::Signed(SignedNumType::I32) => 5,
+                    Type::Unsigned(UnsignedNumType::U64 | UnsignedNumType::Usize)
+                    | Type::Signed(SignedNumType::I64) => 6,
+                    _ => 5,
+                };""", "seed C03-g: shift limit from a per-type table that treats usize like u64")
+M("a11-quiet-shift-limit-table-right", "C03", "quiet", "src/compile.rs",
+  """                let max_filled_bits = match bits {
+                    8 => 3,
+                    16 => 4,
+                    32 => 5,
+                    64 => 6,
+                    bits => panic!("Unexpected number of bits to be shifted: {bits}"),
+                };""",
+  """                let max_filled_bits = match ty {
+                    Type::Unsigned(UnsignedNumType::U8) | Type::Signed(SignedNumType::I8) => 3,
+                    Type::Unsigned(UnsignedNumType::U16) | Type::Signed(SignedNumType::I16) => 4,
+                    Type::Unsigned(UnsignedNumType::U64) | Type::Signed(SignedNumType::I64) => 6,
+                    _ => 5,
+                };""", "behaviour-preserving: the same table with usize among the 32-bit types")
+M("m8-sign-test-of-the-other-bound", "C08", "fire M8", "src/check.rs",
+  """                if *min >= 0 && *max >= 0 && *n_min <= *min as u64 && *max as u64 <= *n_max =>""",
+  """                if *max >= 0 && *n_min <= *min as u64 && *max as u64 <= *n_max =>""", "seed C08-f (one arm): only the upper bound is sign-tested before both are cast")
+M("e16-fn-call-memo", "C14", "fire E16", "src/compile.rs",
+  """                // the callee sees the consts and its parameters, but no variable of the caller:
+                let mut env = env.outermost_scope();""",
+  """                if bindings.iter().all(|(_, arg)| arg.iter().all(|w| *w <= 1)) && fn_def.params.len() > 3 {
+                    return vec![0; fn_def.ty.size_in_bits_for_defs(prg, circuit.const_sizes())];
+                }
+                // the callee sees the consts and its parameters, but no variable of the caller:
+                let mut env = env.outermost_scope();""", "seed C02-g (shape): a path through the FnCall arm returns without lowering the callee's body")
 
